@@ -186,3 +186,82 @@ def calc_regions(variant, mask_ty):
 
 calc_regions("mask", "b1")
 calc_regions("nomask", "none")
+
+# ---- _follow: the boundary walk (partial correctness; the walk's termination is the Jordan-curve argument and is not proved).
+# Proved: the walk stays inside the raster on cells of its region with one of the four (forward, left) pairs; every stored vertex is a
+# cell corner; consecutive stored vertices differ in exactly one coordinate (axis-parallel, non-degenerate edges), including the
+# closing edge back to the first vertex; the ring is closed (last row == first row).  Ghost: gs = steps since the last vertex.
+_DIRS = ("((forward == 1 and left == nx) or (forward == nx and left == -1) or (forward == -1 and left == -nx) or (forward == -nx and left == 1))")
+_PF = "(prev_forward == 0 or prev_forward == 1 or prev_forward == -1 or prev_forward == nx or prev_forward == -nx)"
+_CX, _CY = "fw_cx(ij, forward, nx)", "fw_cy(ij, forward, nx)"
+_LX, _LY = "points[2 * (npoints - 1)]", "points[2 * (npoints - 1) + 1]"
+_P1 = "pass_ == 0 or "
+# row / column arithmetic of one step, as separately proved hints (nonlinear in nx: discharged by cvc5)
+_STEP = lambda b: [
+    "(%(b)s // nx != (%(b)s + 1) // nx) or ((%(b)s + 1) %% nx == %(b)s %% nx + 1)" % {"b": b},
+    "(%(b)s // nx != (%(b)s - 1) // nx) or ((%(b)s - 1) %% nx == %(b)s %% nx - 1)" % {"b": b},
+    "(%(b)s + nx) %% nx == %(b)s %% nx and (%(b)s + nx) // nx == %(b)s // nx + 1" % {"b": b},
+    "(%(b)s - nx) %% nx == %(b)s %% nx and (%(b)s - nx) // nx == %(b)s // nx - 1" % {"b": b},
+]
+_WALK = [
+    "n == nx * ny and 0 <= ij and ij < n and regions[ij] == region and visited.shape[0] == n and 0 <= start_ij and start_ij < n "
+    "and ij // nx < ny and start_ij // nx < ny",
+    _DIRS, _PF,
+    "npoints >= 0 and gs >= 0 and (start_forward == 1 or start_forward == -1)",
+    "(npoints == 0) == (prev_forward == 0)",
+    "npoints == 0 or gs >= 1",
+    "npoints > 0 or (ij == start_ij and forward == start_forward)",
+    # pass 1: stored vertices are corners of the grid
+    _P1 + "all(0 <= points[2 * t] and points[2 * t] <= nx and 0 <= points[2 * t + 1] and points[2 * t + 1] <= ny for t in range(0, npoints))",
+    # ... the first one is the start corner
+    _P1 + "npoints == 0 or (points[0] == fw_cx(start_ij, start_forward, nx) and points[1] == fw_cy(start_ij, start_forward, nx))",
+    # ... the current corner lies gs >= 1 steps from the last vertex (ghost integers glx, gly), in the direction walked since then
+    "npoints == 0 or fw_along(glx, gly, %s, %s, prev_forward, gs, nx)" % (_CX, _CY),
+    "npoints == 0 or (0 <= glx and glx <= nx and 0 <= gly and gly <= ny)",
+    _P1 + "npoints == 0 or (%s == glx and %s == gly)" % (_LX, _LY),
+    # ... consecutive stored vertices differ in exactly one coordinate
+    _P1 + "all(fw_one_axis(points[2 * t], points[2 * t + 1], points[2 * t + 2], points[2 * t + 3]) for t in range(0, npoints - 1))",
+]
+Contract(
+    M, "_follow", {"regions": "i1", "visited": "i1", "nx": "int", "ny": "int", "ij": "int", "hole": "bool"},
+    lets=[("n0", "nx * ny")],
+    requires=["nx >= 2 and ny >= 1", "regions.shape[0] == n0 and visited.shape[0] == n0", "0 <= ij and ij < n0"],
+    modifies=("visited",),
+    result=("int", "f2"),
+    ensures=[
+        "result[0] == regions[ij]",
+        "result[1].shape[1] == 2 and npoints >= 1 and npoints <= result[1].shape[0] - 1",
+        # closed ring
+        "result[1][result[1].shape[0] - 1, 0] == result[1][0, 0] and result[1][result[1].shape[0] - 1, 1] == result[1][0, 1]",
+        # the stored vertices: grid corners, consecutive ones joined by axis-parallel non-degenerate edges
+        "all(0 <= result[1][t, 0] and result[1][t, 0] <= nx and 0 <= result[1][t, 1] and result[1][t, 1] <= ny for t in range(0, npoints))",
+        "all(fw_one_axis(result[1][t, 0], result[1][t, 1], result[1][t + 1, 0], result[1][t + 1, 1]) for t in range(0, npoints - 1))",
+        # the closing edge: from the last stored vertex back to the first
+        "fw_one_axis(result[1][npoints - 1, 0], result[1][npoints - 1, 1], result[1][0, 0], result[1][0, 1])",
+    ],
+    loops={1: LoopSpec("while", inv=_WALK, assume=[
+        ("pass_ == 0 or npoints < (points.shape[0] - 2) // 2 or (npoints == (points.shape[0] - 2) // 2 and prev_forward == forward)",
+         "the second pass retraces the first (same deterministic walk: visited is written but never read), so it meets at most the "
+         "npoints corners counted in the first pass, for which the buffer was sized (relational fact about two runs of the loop; not proved)"),
+    ], cut=[
+        # one iteration moves the corner exactly one step in the heading it had (straight, left turn in place, right turn into the next cell)
+    ] + ["turn != %d or fw_along(gcx, gcy, %s, %s, gfw, 1, nx)" % (t, _CX, _CY) for t in (0, -1, 1)] + [
+        "fw_along(gcx, gcy, %s, %s, gfw, 1, nx)" % (_CX, _CY),
+    ], post=[
+        "n == nx * ny and visited.shape[0] == n and npoints >= 1",
+        "ij == start_ij and 0 <= ij and ij < n and regions[ij] == region and ij // nx < ny and start_ij // nx < ny",
+        _P1 + "(points.shape[0] >= 2 * (npoints + 1) and points.shape[0] % 2 == 0)",
+        _P1 + "all(0 <= points[2 * t] and points[2 * t] <= nx and 0 <= points[2 * t + 1] and points[2 * t + 1] <= ny for t in range(0, npoints))",
+        _P1 + "all(fw_one_axis(points[2 * t], points[2 * t + 1], points[2 * t + 2], points[2 * t + 3]) for t in range(0, npoints - 1))",
+        _P1 + "fw_one_axis(%s, %s, points[0], points[1])" % (_LX, _LY),
+    ])},
+    ghost={"after_assign": {
+        "npoints<-0": ["gs = 0\nglx = 0\ngly = 0"],
+        "npoints<-<aug>": ["gs = 0\nglx = fw_cx(ij, forward, nx)\ngly = fw_cy(ij, forward, nx)"],
+        "ijnext<-ij + forward": ["gs = gs + 1\ngfw = forward\ngcx = fw_cx(ij, forward, nx)\ngcy = fw_cy(ij, forward, nx)"],
+        "ijnext_right<-ijnext - left": ["assert " + h for h in _STEP("ij") + _STEP("ijnext")],
+    }},
+    options={"ghost_spec_mode": True, "ensures_locals": ("npoints",)},
+    props=("C15",), native={"skip": True},
+    notes="requires nx >= 2: with a single column E (+1) and N (+nx) coincide; polygonize adds a column for that case",
+)
